@@ -650,6 +650,8 @@ func TestCheck(t *testing.T) {
 
 	objectEnum(t, rec)
 	rec.Unfreeze()
+	boundaryCheck(t, rec)
+	rec.Unfreeze()
 	ev.RapidCheck(t, "objects", ev.N(3000, 40000), 3, func(rt *rapid.T) { objectProp(rt, rec) })
 	rec.Unfreeze()
 
